@@ -18,7 +18,15 @@ ASSUMPTIONS = ["Migen's simulator (site-packages) defines FHDL semantics",
                "masters use disjoint words (cross-master write ordering is not defined by the protocol)",
                "known findings excluded by construction (counted as classes that stay empty): more than one outstanding request "
                "per direction through AXILiteDecoder (routed by the registered select) and W presented before AW (routed by the idle AW address)",
-               "no accesses to unmapped addresses (no DECERR path without a timeout; C11)"]
+               "no accesses to unmapped addresses (no DECERR path without a timeout; C11)",
+               "AXI4 twins (checks/c08_axi.py): masters use disjoint bytes, bursts obey the AXI4 limits; excluded by construction and "
+               "replayed as witnesses: several bursts of one direction outstanding at DIFFERENT slaves through AXIDecoder, W ahead of "
+               "its AW through AXIDecoder (more than one slave) or AXIArbiter (more than one master)"]
+RULE = RULE + (" || AXI4 twins: AXIArbiter / AXIDecoder / AXIInterconnectShared / AXICrossbar / AXIInterconnectPointToPoint with INCR/FIXED/"
+               "WRAP bursts of 1..16 beats, ids, 1/2/4 outstanding bursts per direction, byte-accurate memory slaves; oracle from the port "
+               "logs (every AW with its complete W burst and every AR exactly once at the decoded slave, in issue order, never mixed "
+               "with another master's beats; every B and R beat back at the issuing master exactly once, in order, unaltered incl. id); "
+               "hold rule on all ten DUT-driven channel ends; progress and round-robin fairness; an exhaustive sweep of lock windows")
 
 
 def st_case(tier):
@@ -170,7 +178,8 @@ def run_case(case):
 
 
 def subchecks():
+    from checks import c08_axi          # the AXI4 twins (AXIArbiter, AXIDecoder, AXIInterconnectShared, AXICrossbar, P2P)
     return [
         Sub("axilite-interconnect", run_case, strategy=st_case, examples=(1000, 50000), timeout=(900, 20000),
             rule="generated AXI-Lite topologies, maps, programs and five-channel schedules"),
-    ]
+    ] + c08_axi.subchecks()
